@@ -1,0 +1,12 @@
+//go:build !verif
+
+// Package verifhook provides named delay/fault points for the runtime
+// verification build (build tag "verif"). Without the tag every function
+// is an empty stub.
+package verifhook
+
+const On = false
+
+func Point(name string) {}
+
+func Report(kind, detail string) {}
